@@ -124,10 +124,14 @@ def psiOf (j : Json) (k : String) : Option (Nat × Nat × Int) :=
   | _ => none
 
 def parseCg (j : Json) : CgE :=
-  { path := jstr j "p", ino := jnat j "ino", gen := jint j "gen", ctrl := jstr? j "ctrl"
+  { path := jstr j "p", ino := jnat j "ino", gen := jint j "gen"
+    ctrl := match jstr? j "ctrl" with | some "empty" => none | o => o
     cur := vopt j "cur", mmin := vopt j "min", mmax := vopt j "max"
     high := vspec j "high", highTmp := vspec j "hightmp"
-    stat := match j.getObjVal? "stat" with | .ok (Json.obj o) => some (Json.obj o) | _ => none
+    stat := match j.getObjVal? "stat" with
+      | .ok (Json.obj o) => some (Json.obj o)
+      | .ok (Json.str "empty") => some (Json.mkObj [])     -- an empty memory.stat is readable and has no keys
+      | _ => none
     mp := psiOf j "mp", iop := psiOf j "iop"
     swapMax := vopt j "swap_max", swapCur := vopt j "swap_cur"
     reclaim := jbool j "reclaim" }
@@ -202,8 +206,8 @@ def mkView [Num α] (cv : Conv α) (sys : Sys α) (cgs : List CgE) (w : World) (
     current := c.cur
     memStat := match c.stat with
       | none => none
-      | some st => some { activeFile := (statKey st "active_file").getD 0
-                          inactiveFile := (statKey st "inactive_file").getD 0
+      | some st => some { activeFile := statKey st "active_file"
+                          inactiveFile := statKey st "inactive_file"
                           activeAnon := statKey st "active_anon"
                           inactiveAnon := statKey st "inactive_anon" }
     memMin := c.mmin
@@ -481,7 +485,7 @@ def handle (j : Json) : Json :=
   let cfgF : Cfg Float := mkCfg convF sc
   let cfgQ : Cfg Rat := mkCfg convQ sc
   let pats := patternsOf sc
-  let initRc : Int := if jbool sc "meminfo_missing" then 1 else 0
+  let initRc : Int := if initOk cfgQ.pressureMs (!jbool sc "meminfo_missing") then 0 else 1
   let implTicks : List (List WEv) := (jarr tr "ticks").map (fun t => (asArr t).map parseWEv)
   let ticks := if initRc == 0 then jarr sc "ticks" else []
   let acc : Acc := (List.zip (List.range ticks.length) ticks).foldl (fun (a : Acc) (k, tj) =>
